@@ -7,6 +7,8 @@
 //   /async/<n>/<tag>         like /size, but the ResponseWriter is handed to an application thread which replies
 //   /stream/<k>/<n>/<tag>    chunked response: k chunks of n bytes, flushed one by one
 //   /astream/<k>/<n>/<tag>   like /stream, but the stream is handed to an application thread, which writes and flushes the chunks
+//   /hints/<k>/<n>/<tag>     "103 Early Hints" written through Peer::send; the final response (k chunks of n bytes, each flushed) is
+//                            streamed from the continuation of that write, i.e. from inside the transport's write path
 //   /file/<tag>              serveFile of a scratch file (content pattern(tag, size))
 //   /tmo/<ms>/<tag>          arms the response time-out and never replies (the framework answers 408)
 //   /tmoreply/<ms>/<tag>     arms the response time-out, then replies at once (the timer must be disarmed and released)
@@ -268,6 +270,28 @@ public:
                 stream.flush();
             }
             stream.ends();
+        } else if (kind == "hints" && parts.size() >= 4) {
+            const int k = std::max(1, std::min(16, atoi(parts[1].c_str())));
+            const size_t n = static_cast<size_t>(atol(parts[2].c_str()));
+            const u64 tag = strtoull(parts[3].c_str(), nullptr, 10);
+            auto writer = std::make_shared<Http::ResponseWriter>(std::move(response));
+            static const std::string kHints = "HTTP/1.1 103 Early Hints\r\nLink: </style.css>; rel=preload\r\n\r\n";
+            auto peer = writer->peer();
+            peer->send(RawBuffer(kHints, kHints.size())).then(
+                [writer, k, n, tag](ssize_t) {
+                    try {
+                        auto stream = writer->stream(Http::Code::Ok);
+                        for (int i = 0; i < k; ++i) {
+                            std::string chunk = actors::pattern(tag + static_cast<u64>(i), n);
+                            stream.write(chunk.data(), static_cast<std::streamsize>(chunk.size()));
+                            stream.flush();
+                        }
+                        stream.ends();
+                    } catch (const std::exception& e) {
+                        sim::logf("hints: %s", e.what());
+                    }
+                },
+                Async::IgnoreException);
         } else if (kind == "file" && parts.size() >= 2) {
             World::track(Http::serveFile(response, w_->file_path(parts[1])), w_->new_send(fd, req.resource()));
         } else if (kind == "tmo" && parts.size() >= 2) {
